@@ -589,6 +589,9 @@ func NumberFormat(fn parser.Function, args []value.Primary, _ *option.Flags) (va
 		if !value.IsNull(i) {
 			precision = int(i.(*value.Integer).Raw())
 			value.Discard(i)
+			if maxFormatNumber < precision {
+				precision = maxFormatNumber
+			}
 		}
 	}
 	if 2 < len(args) {
